@@ -263,7 +263,10 @@ func init() {
 	// hash_to_curve is hash_to_field followed by the map; the (msg, DST) alphabet reaches a defective class of u
 	// only by brute force over SHA-256, so the map sweep (direct u inputs, incl. the solved ones) runs as a seam
 	// under C08 as well, like the field layer does
-	Parts["C08map"] = Part{"C08", C11}
+	Parts["C08map"] = Part{"C08", func(r *ev.Report) {
+		c11Seam = true
+		C11(r)
+	}}
 	Replayers["C08"] = func(c Case) (bool, string) {
 		switch c["op"] {
 		case "bin", "equals", "unary", "predicate", "neighbour", "sqrt", "parse", "wide", "Add", "Subtract", "Multiply", "Square", "Invert", "Pow", "SetUInt64", "persist":
